@@ -142,7 +142,11 @@ channel_release(struct channel* self)
 void
 channel_accept_writes(struct channel* self, uint32_t tf)
 {
+    // Change the flag under the lock: a writer that has just tested it and is
+    // about to wait would otherwise miss both the change and the notification.
+    lock_acquire(&self->lock);
     self->is_accepting_writes = tf;
+    lock_release(&self->lock);
     condition_variable_notify_all(&self->notify_space_available);
 }
 
